@@ -108,8 +108,12 @@ static void cv_init (void) {
 }
 
 /* side-effect-free equivalent of nsync_note_is_notified: the flag, or a stored expiry that has passed */
+/* The deadline after which the harness KNOWS the note to be notified (its own or its parent's; C08), whatever
+   expiry the library stored in it. */
+MC_ORACLE static int64_t known_expiry (nsync_note n) { return (n == note_exp || n == note_child || n == note_parent) ? H_D1 : MC_NEVER; }
 MC_ORACLE static int peek_notified (nsync_note n) {
 	if (*(volatile uint32_t *) &n->notified != 0) return 1;
+	if (known_expiry (n) <= mc_now_ns ()) return 1;
 	return n->expiry_time_valid && h_ns (n->expiry_time) <= mc_now_ns ();
 }
 MC_ORACLE static void announce (int slot, int reader, int64_t dl, nsync_note note) {
